@@ -37,6 +37,7 @@ PROPS['C16'] = dict(level='model_checking',
   bounds='manual-reset event v1: 2 waiters + setter (+ late waiter); K per harness',
   outside='more than 3 parties; weak cmpxchg spurious failure (modelled as strong); weak memory',
   harnesses=[
+  ] + [SEQ('pass_mode%d' % c, 'C16_pass.cpp', 'h_pass', std='c++20', exc=True, opts=dict(params=[c], max_rec=6), desc='nothrow_async_pass<int>: parked accept + try_call, stop %s; payload symbolic' % ['never', 'inside the caller callback', 'before the call', 'after the call'][c]) for c in range(4)] + [
     H('ev1_two_waiters_set', 'C16_event_v1.cpp', ['h_wait0', 'h_wait1', 'h_set'], 16, final='h_final2', desc='two async_wait racing one set()'),
   ])
 
